@@ -27,7 +27,7 @@ PLAIN = [
     "defb 1, 2, 3", "defw 0x1234", "defl 0x012345", "defs 3", 'defm "AB"', 'defb "AB", 3', "defs 0", "",
 ]
 REFS = ["JP {L}", "JPZ {L}", "CALL {L}", "CALLF {L}", "JPF {L}", "MV X, {L}", "MV BA, {L}", "MV A, [{L}]", "defw {L}", "defl {L}", "defb {L}, 1",
-        "jp {l}"]
+        "jp {l}", "MV A, [X+{L}]", "MV [(BP+0x10)-{L}], A"]
 LOCS = ["SECTION code", "SECTION data", "SECTION bss", ".ORG 0x100", ".ORG 0x10100", ".ORG {L}"]
 
 
@@ -35,7 +35,7 @@ def palette(full: bool) -> List[Tuple[str, str]]:
     """(template, ref mode) pairs; ref mode 'fwd' = refers to the LAST label of the program, 'back' = to the first."""
     out: List[Tuple[str, str]] = [(t, "") for t in PLAIN] + [(t, "") for t in LOCS if "{L}" not in t]
     refs = REFS if full else ["JP {L}", "CALL {L}", "CALLF {L}", "MV X, {L}", "MV A, [{L}]", "defw {L}"]
-    for t in refs + [".ORG {L}"] + (["defb {L}, 1", "jp {l}"] if not full else []):
+    for t in refs + [".ORG {L}"] + (["defb {L}, 1", "jp {l}", "MV A, [X+{L}]"] if not full else []):
         out.append((t, "fwd"))
         out.append((t, "back"))
     return out
